@@ -14,7 +14,14 @@
 (*          The property does not let the oscillator off: still one pull   *)
 (*          per output and the same phase recurrence.                      *)
 (*          `agg` = a long run reported as extremes.                       *)
-(*   noise  `next` on instance 0 (original), 1 (restart), 2 (clone).       *)
+(*          `peek{m}` = the next m frames of a CLONE of every oscillator,  *)
+(*          each read through the provided Signal::take on the concrete    *)
+(*          type; the originals are not advanced.  The following m `next`  *)
+(*          lines must reproduce the look-ahead bit for bit (a clone taken *)
+(*          mid-run continues as the original does).                       *)
+(*   noise  `next` on instance 0 (original), 1 (restart), 2 (clone);       *)
+(*          `peek{inst,m}` = the next m values of a clone of the instance  *)
+(*          through Signal::take (the instance itself does not advance).   *)
 (* Accepted iff (layer 1 of Osc.tla)                                       *)
 (*   ph_0 = 0; ph' = (ph + q) mod 1 within 2 ulp of the sum, exactly when  *)
 (*   the sum is representable; q = hz/rate within 2 ulp (by the inverse),  *)
@@ -34,7 +41,11 @@ vars == << l, comp, st, nz, skip >>
 Ev == Rec[l]
 
 FZ == FZeroF(0)
-St0 == [mode |-> "none", rate |-> FZ, ratei |-> -1, exh |-> -1, pn |-> -1, n |-> 0, pk |-> "start", ph |-> FZ, q |-> FZ, chz |-> FZ]
+NoPeek == [ph |-> << >>, q |-> << >>, sine |-> << >>, saw |-> << >>, square |-> << >>, simplex |-> << >>]
+\* pkv / pki: the look-ahead of the last `peek` (values a clone of every oscillator yielded through
+\* Signal::take) and the index of the entry the next frame has to reproduce (pki > Len: nothing pending)
+St0 == [mode |-> "none", rate |-> FZ, ratei |-> -1, exh |-> -1, pn |-> -1, n |-> 0, pk |-> "start", ph |-> FZ, q |-> FZ, chz |-> FZ,
+        pkv |-> NoPeek, pki |-> 1]
 Nz0 == [log |-> << >>, idx |-> << -1, -1, -1 >>]
 
 Pow2s == {Pow2Small(k) : k \in 0..24}
@@ -95,11 +106,26 @@ SineOK(v, has_anti) ==
            \* |sin 2 pi p + sin 2 pi aph| <= 1e-12 + 2 pi |aph - p - 1/2|
            /\ DLe(DMul(DAbs(DAdd(y, D(v.anti))), DE12), DAdd(DOne, DMul(DMul(DFromInt(7), dd), DE12))))
 
+\* a clone taken mid-run continues exactly as the original does: the frame after a peek reproduces the
+\* clone's look-ahead bit for bit (all six observed quantities)
+PeekPending == st.pki <= Len(st.pkv.ph)
+PeekMatch(v) ==
+  PeekPending =>
+    /\ v.ph = st.pkv.ph[st.pki] /\ v.q = st.pkv.q[st.pki] /\ v.sine = st.pkv.sine[st.pki]
+    /\ v.saw = st.pkv.saw[st.pki] /\ v.square = st.pkv.square[st.pki] /\ v.simplex = st.pkv.simplex[st.pki]
+AcceptPeek ==
+  LET v == Ev.r.v IN
+  /\ Ev.a.m \in 1..64 /\ Ev.r.k = "val" /\ Ev.o.ok
+  /\ \A s \in { v.ph, v.q, v.sine, v.saw, v.square, v.simplex } : Len(s) = Ev.a.m /\ \A i \in 1..Len(s) : Fin(s[i])
+  \* looking ahead through clones pulls nothing from the originals' frequency signals
+  /\ IF st.mode = "hz" THEN Len(Ev.o.pulls) = 6 /\ AllEq(Ev.o.pulls, st.n) ELSE Len(Ev.o.pulls) = 0
+
 AcceptNext ==
   LET a == Ev.a
       v == Ev.r.v
       n1 == st.n + 1
   IN /\ HzOK(a) /\ Ev.r.k = "val" /\ Ev.o.ok
+     /\ PeekMatch(v)
      /\ (st.mode = "const" => st.n = 0 \/ a.hz = st.chz)     \* (binding) constant frequency
      /\ StepOK(a.hz, v.q)
      /\ PhaseOK(v.ph)
@@ -158,14 +184,37 @@ OscNext ==
   /\ IF AcceptNext
        THEN /\ st' = [st EXCEPT !.n = st.n + 1, !.pk = "known", !.ph = Ev.r.v.ph,
                                 !.q = Ev.r.v.q, !.chz = Ev.a.hz,
-                                !.pn = NextPn(Ev.a)]
+                                !.pn = NextPn(Ev.a), !.pki = IF PeekPending THEN st.pki + 1 ELSE st.pki]
             /\ HeapNote /\ UNCHANGED << comp, nz, skip >>
        ELSE Reject /\ skip' = TRUE /\ UNCHANGED << comp, st, nz >>
 OscAgg ==
   /\ comp = "osc" /\ Ev.ev = "agg"
   /\ IF AcceptAgg
-       THEN /\ st' = [st EXCEPT !.n = st.n + Ev.a.n, !.pk = "unknown", !.pn = -1]
+       THEN /\ st' = [st EXCEPT !.n = st.n + Ev.a.n, !.pk = "unknown", !.pn = -1, !.pkv = NoPeek, !.pki = 1]
             /\ HeapNote /\ UNCHANGED << comp, nz, skip >>
+       ELSE Reject /\ skip' = TRUE /\ UNCHANGED << comp, st, nz >>
+
+OscPeek ==
+  /\ comp = "osc" /\ Ev.ev = "peek"
+  /\ IF AcceptPeek
+       THEN /\ st' = [st EXCEPT !.pkv = Ev.r.v, !.pki = 1]
+            /\ HeapNote /\ UNCHANGED << comp, nz, skip >>
+       ELSE Reject /\ skip' = TRUE /\ UNCHANGED << comp, st, nz >>
+
+\* noise: the next m values of a clone (Signal::take) are the values of the indices idx .. idx + m - 1
+RECURSIVE NoisePeekOK(_, _, _, _)
+NoisePeekOK(log, idx, vs, i) ==
+  IF i > Len(vs) THEN TRUE
+  ELSE /\ RangeAccept(vs[i]) /\ NoiseConsistent(log, idx, vs[i])
+       /\ NoisePeekOK(NoiseLog(log, idx, vs[i]), idx + 1, vs, i + 1)
+RECURSIVE NoisePeekLog(_, _, _, _)
+NoisePeekLog(log, idx, vs, i) == IF i > Len(vs) THEN log ELSE NoisePeekLog(NoiseLog(log, idx, vs[i]), idx + 1, vs, i + 1)
+NoisePeekEv ==
+  /\ comp = "noise" /\ Ev.ev = "peek"
+  /\ IF /\ InstOK(Ev.a.inst) /\ nz.idx[Ev.a.inst + 1] >= 0 /\ Ev.a.m \in 1..64 /\ Ev.r.k = "val" /\ Len(Ev.r.v) = Ev.a.m
+        /\ NoisePeekOK(nz.log, nz.idx[Ev.a.inst + 1], Ev.r.v, 1)
+       THEN /\ nz' = [nz EXCEPT !.log = NoisePeekLog(nz.log, nz.idx[Ev.a.inst + 1], Ev.r.v, 1)]
+            /\ HeapNote /\ UNCHANGED << comp, st, skip >>
        ELSE Reject /\ skip' = TRUE /\ UNCHANGED << comp, st, nz >>
 
 NoiseNextEv ==
@@ -191,12 +240,12 @@ NoiseAggEv ==
        THEN nz' = [nz EXCEPT !.idx[Ev.a.inst + 1] = -1] /\ HeapNote /\ UNCHANGED << comp, st, skip >>
        ELSE Reject /\ skip' = TRUE /\ UNCHANGED << comp, st, nz >>
 
-Known == \/ comp = "osc" /\ Ev.ev \in {"next", "agg"}
-         \/ comp = "noise" /\ Ev.ev \in {"next", "clone", "restart", "agg"}
+Known == \/ comp = "osc" /\ Ev.ev \in {"next", "agg", "peek"}
+         \/ comp = "noise" /\ Ev.ev \in {"next", "clone", "restart", "agg", "peek"}
 TUnknown == ~Known /\ Reject /\ skip' = TRUE /\ UNCHANGED << comp, st, nz >>
 
 TOp == /\ Consume /\ Ev.ev # "reset" /\ ~skip
-       /\ (OscNext \/ OscAgg \/ NoiseNextEv \/ NoiseCloneEv \/ NoiseRestartEv \/ NoiseAggEv \/ TUnknown)
+       /\ (OscNext \/ OscAgg \/ OscPeek \/ NoisePeekEv \/ NoiseNextEv \/ NoiseCloneEv \/ NoiseRestartEv \/ NoiseAggEv \/ TUnknown)
 TSkip == Consume /\ Ev.ev # "reset" /\ skip /\ UNCHANGED << comp, st, nz, skip >>
 
 TraceInit == l = 1 /\ comp = "none" /\ st = St0 /\ nz = Nz0 /\ skip = TRUE
